@@ -101,7 +101,20 @@ pub fn compare(h: &History, r: &RealOut) -> Option<Result<(), String>> {
     if r.code != Some(want_code) {
         return Some(Err(format!("exit status {:?}, simulated {}", r.code, want_code)));
     }
-    if r.stdout != h.raw_out {
+    // bin.rs is a stub in the simulation (DESIGN §11): what it prints around the run - the report
+    // about an unreadable file, the blank line after the run - is not held against either side
+    let not_utf8 = h.events.iter().any(|e| matches!(e, Event::Rec { origin: Origin::Main, text, .. } if text.starts_with("Error Reading file")));
+    if not_utf8 {
+        return Some(if r.stdout.is_empty() && r.stderr.is_empty() { Err("nothing was said about an unreadable file".to_owned()) } else { Ok(()) });
+    }
+    let trim_nl = |b: &[u8]| -> Vec<u8> {
+        let mut v = b.to_vec();
+        while v.last() == Some(&b'\n') {
+            v.pop();
+        }
+        v
+    };
+    if trim_nl(&r.stdout) != trim_nl(&h.raw_out) {
         let p = r.stdout.iter().zip(h.raw_out.iter()).position(|(a, b)| a != b).unwrap_or(r.stdout.len().min(h.raw_out.len()));
         let ctx = |b: &[u8]| String::from_utf8_lossy(&b[p.saturating_sub(30).min(b.len())..(p + 50).min(b.len())]).into_owned();
         return Some(Err(format!(
